@@ -170,11 +170,9 @@ func (gopt *GetOpt) HelpCommand(name string, fns ...ModifyFn) {
 
 func runHelp(ctx context.Context, opt *GetOpt, args []string) error {
 	if len(args) > 0 {
-		for _, command := range opt.programTree.Parent.ChildCommands {
-			if command.Name == args[0] {
-				fmt.Fprint(Writer, helpOutput(command))
-				return ErrorHelpCalled
-			}
+		if command, ok := opt.programTree.Parent.ChildCommands[args[0]]; ok {
+			fmt.Fprint(Writer, helpOutput(command))
+			return ErrorHelpCalled
 		}
 		return fmt.Errorf("no help topic for '%s'", args[0])
 	}
